@@ -164,6 +164,17 @@ def check_plan(ctx, what, res, numblocks, axes, keepdims, split_every):
         if numblocks[ax] > split[ax] ** depth:
             ctx.fail(f"{what}: depth {depth} too small: {numblocks[ax]} blocks > {split[ax]}^{depth}",
                      observed=depth)
+    # the depth loop itself: Lean `treeDepth` (exact ceil(log_k n), running maximum over the reduced axes); dask's float
+    # formula may overshoot by one at exact powers — never undershoot
+    if all(k >= 2 for k in split.values()):
+        md, md_last = ctx.lean(Sym("treedepth"), sp, list(numblocks))
+        if depth not in (md, md + 1):
+            ctx.fail(f"{what}: depth {depth} of the real tree is not the depth of the _tree_reduce loop ({md}, or one more "
+                     "through float rounding)", observed=depth, expected=md)
+        elif depth == md + 1:
+            ctx.branch("float-depth-overshoot")
+        if md_last < md:
+            ctx.branch("an earlier reduced axis needs more levels than the last one")
     if depth > 1:
         ctx.branch(f"depth={min(depth, 4)}")
     return depth, split
